@@ -786,6 +786,23 @@ def check_c10(prop, tier, seed, devices):
         [defr("tmp", 16), seg("eeprom"), undef("tmp"), defr("tmp", 18), seg("code"), instr("inc", E(sym("tmp")))],
         [seg("eeprom"), setv("yv", 7), data(1, E(sym("yv"))), seg("data"), setv("yv", 9), seg("code"), data(2, E(sym("yv")))],
     ]
+    # chains of definitions: a name defined through others, used several times in one expression, together with the names it is built on
+    chain = [equ("ca", binop("+", lit(1), lit(1))), equ("cb", binop("*", sym("ca"), lit(2))), equ("cc", binop("+", lit(10), sym("cb"))),
+             equ("cd", binop("-", sym("cc"), sym("ca")))]
+    uses = [binop("+", sym("cb"), sym("cb")), binop("|", binop("<<", sym("cc"), lit(8)), sym("cc")), binop("+", binop("*", sym("cc"), sym("cb")), sym("ca")),
+            binop("+", binop("+", sym("cd"), sym("cc")), binop("+", sym("cb"), sym("ca"))), binop("-", sym("cc"), sym("cb")),
+            binop("+", sym("ca"), binop("+", sym("cb"), binop("+", sym("cc"), sym("cd")))), binop("*", sym("cd"), sym("cd"))]
+    for u in uses:
+        for order in (0, 1, 2):
+            defs = copy.deepcopy(chain) if order == 0 else list(reversed(copy.deepcopy(chain)))
+            use = [data(2, E(copy.deepcopy(u))), instr("ldi", R(16), E(fn("low", copy.deepcopy(u))))]
+            hand.append(defs + use if order < 2 else use + defs)
+    # names that begin like a register or an index register, also behind a unary operator
+    for nme in ("xval", "ypos", "zed", "x2", "yy", "zh2", "rate", "r3d", "r16k", "xh", "pcx", "lowest", "highway", "exp2k"):
+        for wrapf in (lambda e: e, lambda e: un("-", e), lambda e: un("~", e), lambda e: un("!", e), lambda e: binop("-", lit(100), e), lambda e: fn("low", un("-", e))):
+            hand.append([equ(nme, 5), instr("ldi", R(16), E(fn("low", wrapf(sym(nme))))), instr("ldi", R(17), E(binop("&", wrapf(sym(nme)), lit(0xff)))),
+                         data(2, E(binop("&", wrapf(sym(nme)), lit(0xffff))))])
+            hand.append([instr("subi", R(18), E(binop("&", wrapf(sym(nme)), lit(0x7f)))), label(nme), instr("nop")])
     for p in hand:
         for cs in CASES3:
             for cs2 in CASES3:
